@@ -74,6 +74,13 @@ func (b *block) seek(cmp comparer.Comparer, rstart, rlimit int, key []byte) (ind
 		// The smallest key is greater-than key sought.
 		index = rstart
 	}
+	if index >= b.restartsLen {
+		// There is no restart point at or after rstart (the range starts
+		// beyond the last entry): position at the end of the entries rather
+		// than reading the restart count as an entry offset.
+		offset = b.restartsOffset
+		return
+	}
 	offset = int(binary.LittleEndian.Uint32(b.data[b.restartsOffset+4*index:]))
 	return
 }
